@@ -80,3 +80,125 @@ theorem run_error_located_at_token (P : Prims) (O : OutPrims) (cfg : Cfg) (fs : 
       cases hse
     · cases h
     · cases h
+
+/-- **C07 (the chain of files), from source bytes, every nesting depth.** Whenever `run` returns an error `e`, its line
+    is reached along a chain of files (`ErrAt`, Proofs/C07LocatedLemmas.lean): it is the line of a tag or object token
+    of the source — start line plus the newlines before the token —, or the source has a tag or object token `t` and
+    the file system a file such that the same holds of the file's source parsed at start line `t.line`, and so on,
+    through as many files as the failing construct is nested in (at most the include depth). -/
+theorem run_error_chain (P : Prims) (O : OutPrims) (cfg : Cfg) (fs : FS) (fuel : Nat) :
+    ∀ (src : Bytes) (line : Nat) (env : Env) (e : SErr), run P O cfg fs fuel src line env = .err e → ErrAt cfg fs src line e.line := by
+  induction fuel with
+  | zero =>
+    intro src line env e h
+    obtain ⟨_, pre, t, rest, h1, h2, h3, h4, h5⟩ := run_error_located_at_token P O cfg fs 0 src line env e h
+    rcases h5 with h5 | ⟨n, _, _, _, _, hn, _⟩
+    · rw [h5]; exact ErrAt.here src line pre t rest h1 h2 h3 h4
+    · cases hn
+  | succ m ih =>
+    intro src line env e h
+    obtain ⟨_, pre, t, rest, h1, h2, h3, h4, h5⟩ := run_error_located_at_token P O cfg fs (m + 1) src line env e h
+    rcases h5 with h5 | ⟨n, f, src', env', e', hn, hfs, hrun', hl, _⟩
+    · rw [h5]; exact ErrAt.here src line pre t rest h1 h2 h3 h4
+    · have hnm : n = m := by omega
+      subst hnm
+      rw [hl]
+      exact ErrAt.inFile src line pre t rest f src' _ h1 h2 h3 h4 hfs (ih src' t.line env' e' hrun')
+
+/-- **C07 (no line 0), from source bytes, include tags allowed.** For every source and every start line: the line
+    of an error of `run` is at least the start line — so it is not 0 when the template was parsed with a start line
+    of at least 1, also when the failing construct is inside an included file, at any depth
+    (`run_error_line_ge_start` is the same for sources without an include tag). -/
+theorem run_error_line_ge_start_incl (P : Prims) (O : OutPrims) (cfg : Cfg) (fs : FS) (fuel : Nat) (src : Bytes) (line : Nat)
+    (env : Env) (e : SErr) (h : run P O cfg fs fuel src line env = .err e) : line ≤ e.line :=
+  (run_error_chain P O cfg fs fuel src line env e h).ge
+
+/-- **C07 (the token inside the included file), one level.** On a file system none of whose files contains an
+    `include` tag (a decidable condition on the file's tokens, independent of the start line: `noIncludeTag_any_line`) (includes are nested at most one deep): whenever `run` returns an error `e` there is a tag or
+    object token `t` of the source, `t.line = line + countNL (srcs pre)`, such that `e.line = t.line`, or there are a
+    file `f` with source `src'` and a tag or object token `t'` of `src'` scanned from start line `t.line` such that
+    `e.line = t.line + countNL (srcs pre')`: the include tag's line plus the newlines of the FILE before the failing
+    token (the token sources partition the file). -/
+theorem run_error_located_in_file_token (P : Prims) (O : OutPrims) (cfg : Cfg) (fs : FS) (fuel : Nat) (src : Bytes) (line : Nat)
+    (env : Env) (e : SErr)
+    (hfiles : ∀ f src', fileSource fs f = some src' → NoIncludeTag (scan cfg.delims src' 0))
+    (h : run P O cfg fs fuel src line env = .err e) :
+    e.pathSet = true ∧
+    ∃ pre t rest, scan cfg.delims src line = pre ++ t :: rest ∧ (t.ty = .tag ∨ t.ty = .obj) ∧
+      t.line = line + countNL (srcs pre) ∧ src = srcs pre ++ (t.source ++ srcs rest) ∧
+      (e.line = t.line ∨
+       ∃ f src' pre' t' rest', fileSource fs f = some src' ∧ scan cfg.delims src' t.line = pre' ++ t' :: rest' ∧
+         (t'.ty = .tag ∨ t'.ty = .obj) ∧ e.line = t.line + countNL (srcs pre') ∧
+         src' = srcs pre' ++ (t'.source ++ srcs rest')) := by
+  obtain ⟨hp, pre, t, rest, h1, h2, h3, h4, h5⟩ := run_error_located_at_token P O cfg fs fuel src line env e h
+  refine ⟨hp, pre, t, rest, h1, h2, h3, h4, ?_⟩
+  rcases h5 with h5 | ⟨n, f, src', env', e', _, hfs, hrun', hl, _⟩
+  · exact Or.inl h5
+  · obtain ⟨pre', t', rest', g1, g2, g3, g4, g5, _⟩ :=
+      run_error_at_tag_or_object P O cfg fs n src' t.line env' e' (noIncludeTag_any_line cfg.delims src' (hfiles f src' hfs) t.line) hrun'
+    exact Or.inr ⟨f, src', pre', t', rest', hfs, g1, g2, by rw [hl, g3, g4], g5⟩
+
+/-! ## Concrete instances
+
+(1) `a⏎{% include "f" %}⏎{{ y }}` with strict variables, `y` unbound, the file `f` = `A⏎B⏎`: the include succeeds and
+inserts two lines; the object fails at line 3 = start line 1 + the two newlines of the SOURCE before it — the lines of
+the included text do not count. (2) `include_error_line` (Proofs/C07Source.lean): `{% include "f" %}` with `f` =
+`⏎⏎{{ y }}`: the error has line 3 = the tag's line 1 + the two newlines of the FILE before the object. -/
+def c07IncOkFs : FS := ⟨fun p => if p = [102] then .content [65, 10, 66, 10] else .notExist, fun _ => none⟩
+
+def c07IncOkSrc : Bytes := [97, 10, 123, 37, 32, 105, 110, 99, 108, 117, 100, 101, 32, 34, 102, 34, 32, 37, 125, 10, 123, 123, 32, 121, 32, 125, 125]
+
+theorem c07IncOk_compiles : compileSource [] c07IncOkSrc 1 =
+    .ok [.text 1 [97, 10], .incl 2 [34, 102, 34], .text 2 [10], .obj 3 (.var [121])] := by rfl
+
+theorem c07IncOk_inner : compileSource [] [65, 10, 66, 10] 2 = .ok [.text 2 [65, 10, 66, 10]] := by rfl
+
+theorem c07IncOk_run (P : Prims) (O : OutPrims) :
+    run P O strictCfg c07IncOkFs 1 c07IncOkSrc 1 [] = .err ⟨3, true, .other "undefinedVariable", .byCause⟩ := by
+  unfold run
+  rw [show strictCfg.delims = [] from rfl, c07IncOk_compiles]
+  have hp : parseExprSource [34, 102, 34] = .ok (.lit (.str [102])) := rfl
+  have hj : joinPath (dirPath []) [102] = [102] := by decide
+  simp [frender, renderRoot, renderList, renderNode, wrapAt, wrapFailAt, M.mapFail, M.bind, M.pure, M.getEnv, M.ofRes, M.fail,
+    Prog.bind, Prog.mapFail, Prog.runPure, bind, pure, mkCtx, evaluate, eval, GoVal.unwrap, hp, Res.mapErr, incFuel, renderFileWith,
+    c07IncOkFs, hj, strictCfg, c07IncOk_inner, writeM, writeVerbatimM, flushM, Env.get, GoVal.isNil, GoVal.toLiquid, wrapError, Status.wrap]
+
+/-- (1) the error is at a token of the source: the theorem's witness has `t.line = 1 + countNL (srcs pre)` -/
+example (P : Prims) (O : OutPrims) :
+    true = true ∧
+    ∃ pre t rest, scan strictCfg.delims c07IncOkSrc 1 = pre ++ t :: rest ∧ (t.ty = .tag ∨ t.ty = .obj) ∧
+      t.line = 1 + countNL (srcs pre) ∧ c07IncOkSrc = srcs pre ++ (t.source ++ srcs rest) ∧
+      ((3 : Nat) = t.line ∨
+       ∃ n f src' env' e', 1 = n + 1 ∧ fileSource c07IncOkFs f = some src' ∧
+         run P O strictCfg c07IncOkFs n src' t.line env' = .err e' ∧ (3 : Nat) = e'.line ∧ true = e'.pathSet) :=
+  run_error_located_at_token P O strictCfg c07IncOkFs 1 c07IncOkSrc 1 [] _ (c07IncOk_run P O)
+
+/-- (1) every file of `c07IncOkFs` is include-free: the one-level form applies -/
+example (P : Prims) (O : OutPrims) :
+    true = true ∧
+    ∃ pre t rest, scan strictCfg.delims c07IncOkSrc 1 = pre ++ t :: rest ∧ (t.ty = .tag ∨ t.ty = .obj) ∧
+      t.line = 1 + countNL (srcs pre) ∧ c07IncOkSrc = srcs pre ++ (t.source ++ srcs rest) ∧
+      ((3 : Nat) = t.line ∨
+       ∃ f src' pre' t' rest', fileSource c07IncOkFs f = some src' ∧ scan strictCfg.delims src' t.line = pre' ++ t' :: rest' ∧
+         (t'.ty = .tag ∨ t'.ty = .obj) ∧ (3 : Nat) = t.line + countNL (srcs pre') ∧
+         src' = srcs pre' ++ (t'.source ++ srcs rest')) :=
+  run_error_located_in_file_token P O strictCfg c07IncOkFs 1 c07IncOkSrc 1 [] _
+    (by
+      intro f src' hf
+      have : src' = [65, 10, 66, 10] := by
+        unfold fileSource c07IncOkFs at hf
+        simp only at hf
+        split at hf
+        · next h => split at h <;> simp_all
+        · next h => split at h <;> simp_all
+        · cases hf
+      subst this
+      decide)
+    (c07IncOk_run P O)
+
+/-- (2) the failing construct is in the included file: `run_error_chain` and the lower bound on `include_error_line` -/
+example (P : Prims) (O : OutPrims) : ErrAt strictCfg c07IncFs (spell Delims.default [tg nmInclude [34, 102, 34]]) 1 3 :=
+  run_error_chain P O strictCfg c07IncFs 1 _ 1 [] _ (include_error_line P O).1
+
+example (P : Prims) (O : OutPrims) : 1 ≤ (3 : Nat) :=
+  run_error_line_ge_start_incl P O strictCfg c07IncFs 1 _ 1 [] ⟨3, true, .other "undefinedVariable", .byCause⟩ (include_error_line P O).1
